@@ -74,7 +74,8 @@ Qed.
 (* ------------------------------------------------------------------ shape of a primitive's text (no guards needed) *)
 Lemma prim_assigns_shape p : exists l e, prim_assigns p = [(l, e)] /\ lnet l = fst (prim_out p).
 Proof.
-  destruct p; cbn [prim_assigns prim_out]; try (do 2 eexists; split; reflexivity).
+  destruct p; cbn [prim_assigns prim_out]; try (do 2 eexists; split; reflexivity);
+    try (destruct ins as [|x t]; do 2 eexists; split; reflexivity).
   unfold inl_constant. destruct (1 <? snd r); do 2 eexists; split; reflexivity.
 Qed.
 
